@@ -474,8 +474,10 @@ class Run:
         ev = {"property_id": self.prop, "tier": self.tier, "seed": self.seed, "level": self.level,
               "coverage": cov, "assumptions": self.assumptions, "wall_s": round(time.time() - self.t0, 2),
               "violations": len(self.violations)}
-        os.makedirs(os.path.join(VERIF, "evidence"), exist_ok=True)
-        json.dump(ev, open(os.path.join(VERIF, "evidence", "%s.json" % self.prop), "w"), indent=1)
+        # runs against a deliberately mutated /repo (tools/mutate.sh) must not overwrite the evidence of the real tree
+        evdir = os.environ.get("VERIF_EVIDENCE_DIR") or os.path.join(VERIF, "evidence")
+        os.makedirs(evdir, exist_ok=True)
+        json.dump(ev, open(os.path.join(evdir, "%s.json" % self.prop), "w"), indent=1)
         for fid, what in sorted(self.known_hits.items()):
             print("KNOWN-FINDING: property=%s %s" % (self.prop, what))
         seen = set()
